@@ -3,6 +3,7 @@ import re
 
 from lib.mir import AnchorMissing
 from . import nf_common, nfq
+from .guardlib import gval, comparisons, lt_true, ge_true
 
 MANIFEST = {
     "text": "Invariant and commit-discipline rules on BufferQueue: no empty buffer is ever stored (every push is on the false edge of a len32()==0 test; every in-place shrink of the front buffer is followed by an emptiness test that pops it), eat() mutates nothing before the whole pattern matched, pop_except_from touches only the front buffer; SmallCharSet::contains tests exactly bit n for n<64. Plus equality of every function of buffer_queue.rs and smallcharset.rs with its reviewed normal form. eat() answers 'need more' only for an empty queue or where the buffered text ran out after matching so far (R13.2).",
@@ -71,7 +72,7 @@ def r13_2(ctx):
         if str(pc["ret"]) != "None":
             continue
         names = nfq.names(pc)
-        empty_queue = any(("front()" in k and "Some/Ok" in k and v is False) for k, v in pc["guards"].items())
+        empty_queue = any(("front()" in k and "matches Some(_)" in k and v is False) for k, v in pc["guards"].items())
         in_loop = any(a.startswith("loop-begin") and "p1.bytes()" in a for a in names)
         if not empty_queue and not in_loop:
             early = "eat() answers None on a path that has not compared any byte (%s)" % [k for k, v in pc["guards"].items()][:2]
@@ -93,8 +94,11 @@ def r13_3(ctx):
     ok = "(1 << (p1 as usize))" in blob and not re.search(r"< 6[0-35-9]\b", blob)
     ctx.ob("R13.3", "smallcharset-contains-tests-bit-n", ok, "contains(n) tests bit n of the 64-bit set")
     key, pcs = nfq.cells(ctx, AREA, "util::smallcharset::SmallCharSet::nonmember_prefix_len")
-    blob = " ".join(str(pc["ret"]) + " ".join(pc["guards"]) + " ".join(nfq.texts(pc)) for pc in pcs)
-    ctx.ob("R13.3", "prefix-scan-bounds-at-64", ">= 64" in blob, "bytes >= 64 are never members (guard b >= 64 before contains)")
+    fe = nfq.feasible(pcs)
+    asks = [pc for pc in fe if any("contains(" in g for g in pc["guards"])]
+    high = [pc for pc in fe if gval(pc["guards"], "(item < 64)") is False]
+    ok = bool(asks) and all(gval(pc["guards"], "(item < 64)") is True for pc in asks) and bool(high) and all(any(x.startswith("loop-end(end)") for x in nfq.texts(pc)) for pc in high)
+    ctx.ob("R13.3", "prefix-scan-bounds-at-64", ok, "bytes >= 64 are never members: contains() is asked only below 64, a byte >= 64 counts as a non-member and the scan goes on")
 
 
 def run(ctx):
